@@ -15,6 +15,15 @@ if/elif/else, return, assert, docstrings; expressions over numbers with
 attribute paths of rectangles / points / shapes / bounding boxes, calls of other
 translated methods, Rectangle.distance_epsilon()/area_epsilon() (parameters),
 almost_eq, StogLocation constants, `x in [a, b]`.
+
+Helpers: a call `Rectangle._h(...)`, `self._h(...)`, `r._h(...)` (static, class or instance method) or an
+attribute `self._p` (property) of the class that is not one of METHODS is translated ON DEMAND from
+its own definition and inlined at the call site (arguments bound to fresh temporaries first, then to the
+helper's parameter names; recursion is refused).  Parameter types of a helper come from its annotations
+(float/int -> number, bool, Rectangle, Point, Shape, BoundingBox).  A helper (or a conditional
+expression) may return None: the value then has an option type, which a caller can only use after the
+test `if v is None:` / `if v is not None:` (translated to a `match`; inside the non-None branch the
+name is the plain value).  Everything else about an optional value raises TranslationError.
 """
 from __future__ import annotations
 
@@ -49,14 +58,57 @@ def num(v) -> str:
     return f"(qc {n} {f.denominator})"
 
 
+ANNOT_TYPES = {"float": "num", "int": "num", "bool": "bool", "Rectangle": "rect", "Point": "point", "Shape": "shape",
+               "BoundingBox": "bb"}
+# result types of the translated methods when called from another method
+METHOD_RESULT = {"area_overlap": "num", "overlap": "bool", "is_inside": "bool", "touches": "bool",
+                 "find_location": "loc", "x_cuttable": "bool", "y_cuttable": "bool"}
+_counter = [0]
+
+
+def fresh(prefix="a"):
+    _counter[0] += 1
+    return f"{prefix}_{_counter[0]}"
+
+
+def decorators(node) -> set:
+    out = set()
+    for d in node.decorator_list:
+        if isinstance(d, ast.Name):
+            out.add(d.id)
+        elif isinstance(d, ast.Attribute):
+            out.add(d.attr)
+    return out
+
+
+def annot_type(a) -> str | None:
+    """type named by a parameter annotation; None if there is none; TranslationError if not understood"""
+    if a is None:
+        return None
+    if isinstance(a, ast.Constant) and isinstance(a.value, str):
+        name = a.value
+    elif isinstance(a, ast.Name):
+        name = a.id
+    else:
+        raise TranslationError("parameter annotation " + ast.dump(a)[:60])
+    if name not in ANNOT_TYPES:
+        raise TranslationError(f"parameter annotation {name}")
+    return ANNOT_TYPES[name]
+
+
 class Fn:
-    def __init__(self, node: ast.FunctionDef):
+    def __init__(self, node: ast.FunctionDef, cls_defs: dict | None = None, stack: tuple = ()):
         self.node = node
         self.name = node.name
         self.env: dict[str, str] = {}
-        self.optional = any(isinstance(n, ast.Assert) for n in ast.walk(node)) or any(
-            isinstance(n, ast.Return) and isinstance(n.value, ast.Constant) and n.value.value is None
-            for n in ast.walk(node)) or any(
+        self.cls_defs = cls_defs or {}
+        self.stack = stack
+        self.ret_types: set[str] = set()
+        ret_none = any(isinstance(n, ast.Return) and n.value is not None and
+                       any(isinstance(c, ast.Constant) and c.value is None for c in ast.walk(n.value))
+                       for n in ast.walk(node))
+        self.optional = any(isinstance(n, ast.Assert) for n in ast.walk(node)) or ret_none or any(
+            isinstance(n, ast.Return) and n.value is None for n in ast.walk(node)) or any(
             isinstance(n, ast.Attribute) and n.attr in ("split_vertical", "split_horizontal") for n in ast.walk(node))
 
     # ---------- expressions: returns (gallina, type) ----------
@@ -66,10 +118,14 @@ class Fn:
                 return ("true" if e.value else "false"), "bool"
             if isinstance(e.value, (int, float)):
                 return num(e.value), "num"
+            if e.value is None:
+                return "None", "none"
             raise TranslationError(f"constant {e.value!r}")
         if isinstance(e, ast.Name):
             if e.id not in self.env:
                 raise TranslationError(f"unknown name {e.id}")
+            if self.env[e.id] == "none":
+                raise TranslationError(f"{e.id} is None here")
             return "v_" + e.id, self.env[e.id]
         if isinstance(e, ast.UnaryOp):
             a, t = self.expr(e.operand)
@@ -106,11 +162,26 @@ class Fn:
                 out = f"({out} && {p})"
             return out, "bool"
         if isinstance(e, ast.IfExp):
+            nt = self.none_test(e.test)
+            if nt is not None:
+                name, is_none = nt
+                base = self.env[name][4:]
+                saved = dict(self.env)
+                self.env[name] = "none" if is_none else base
+                a, ta = self.expr(e.body)
+                self.env = dict(saved)
+                self.env[name] = base if is_none else "none"
+                b, tb = self.expr(e.orelse)
+                self.env = saved
+                (a, ta), (b, tb) = self.unify(a, ta, b, tb)
+                (n_br, s_br) = (a, b) if is_none else (b, a)
+                return f"(match v_{name} with None => {n_br} | Some v_{name} => {s_br} end)", ta
             c, tc = self.expr(e.test)
             a, ta = self.expr(e.body)
             b, tb = self.expr(e.orelse)
-            if tc != "bool" or ta != tb:
+            if tc != "bool":
                 raise TranslationError("conditional expression")
+            (a, ta), (b, tb) = self.unify(a, ta, b, tb)
             return f"(if {c} then {a} else {b})", ta
         if isinstance(e, ast.Attribute):
             return self.attribute(e)
@@ -123,7 +194,45 @@ class Fn:
             raise TranslationError("tuple expression")
         raise TranslationError(f"expression {type(e).__name__}")
 
+    @staticmethod
+    def unify(a, ta, b, tb):
+        """the two branches of a conditional: equal types, or None against a value (-> option)"""
+        if ta == tb and ta != "none":
+            return (a, ta), (b, tb)
+        if ta == "none" and tb != "none":
+            t = tb if tb.startswith("opt:") else "opt:" + tb
+            return ("None", t), ((b if tb.startswith("opt:") else f"(Some {b})"), t)
+        if tb == "none" and ta != "none":
+            t = ta if ta.startswith("opt:") else "opt:" + ta
+            return ((a if ta.startswith("opt:") else f"(Some {a})"), t), ("None", t)
+        if ta.startswith("opt:") and ta[4:] == tb:
+            return (a, ta), (f"(Some {b})", ta)
+        if tb.startswith("opt:") and tb[4:] == ta:
+            return (f"(Some {a})", tb), (b, tb)
+        raise TranslationError(f"conditional expression of {ta} and {tb}")
+
+    def none_test(self, test):
+        """`NAME is None` / `NAME is not None` on a name of option type -> (name, tested_for_none)"""
+        if isinstance(test, ast.Compare) and len(test.ops) == 1 and isinstance(test.ops[0], (ast.Is, ast.IsNot)) and \
+                isinstance(test.left, ast.Name) and isinstance(test.comparators[0], ast.Constant) and \
+                test.comparators[0].value is None:
+            t = self.env.get(test.left.id)
+            if t is None:
+                raise TranslationError(f"unknown name {test.left.id}")
+            if not t.startswith("opt:"):
+                raise TranslationError(f"'is None' on {t}")
+            return test.left.id, isinstance(test.ops[0], ast.Is)
+        return None
+
     def compare(self, l, op, r) -> str:
+        if isinstance(op, (ast.Is, ast.IsNot)):
+            if isinstance(r, ast.Constant) and r.value is None:
+                a, ta = self.expr(l)
+                if not ta.startswith("opt"):
+                    raise TranslationError(f"'is None' on {ta}")
+                yes, no = ("true", "false") if isinstance(op, ast.Is) else ("false", "true")
+                return f"(match {a} with None => {yes} | Some _ => {no} end)"
+            raise TranslationError("'is' on something else than None")
         if isinstance(op, (ast.In,)):
             a, ta = self.expr(l)
             if ta != "loc" or not isinstance(r, ast.List):
@@ -171,6 +280,9 @@ class Fn:
                 return f"(g_area {base})", "num"
             if a == "aspect_ratio":
                 raise TranslationError("aspect_ratio used inside another method")
+            h = self.cls_defs.get(a)
+            if h is not None and a not in METHODS and "property" in decorators(h):
+                return self.inline(h, [(base, "rect")])
         if tb == "shape" and a in ("w", "h"):
             return self.proj(base, a == "w"), "num"
         if tb == "point" and a in ("x", "y"):
@@ -235,16 +347,76 @@ class Fn:
                     return "eps", "num"
                 if f.attr == "area_epsilon":
                     return "aeps", "num"
+            h = self.cls_defs.get(f.attr)
+            if isinstance(f.value, ast.Name) and f.value.id in ("Rectangle", "cls") and f.value.id not in self.env:
+                # Rectangle.helper(...): static / class method, or an instance method with the receiver given explicitly
+                if h is None or f.attr in METHODS:
+                    raise TranslationError(f"call of Rectangle.{f.attr}")
+                return self.inline(h, args)
             recv, tr = self.expr(f.value)
+            if tr == "rect" and h is not None and f.attr not in METHODS and f.attr != "duplicate":
+                deco = decorators(h)
+                if "staticmethod" in deco or "classmethod" in deco:
+                    return self.inline(h, args)
+                return self.inline(h, [(recv, tr)] + args)
+            if tr == "rect" and f.attr in METHOD_RESULT and len(args) == 1 and args[0][1] == "rect" and \
+                    f.attr != "area_overlap":
+                return f"(g_{f.attr} {recv} {args[0][0]})", METHOD_RESULT[f.attr]
             if tr == "rect":
                 if f.attr == "duplicate" and not args:
                     return f"(duplicate {recv})", "rect"
                 if f.attr == "area_overlap" and len(args) == 1 and args[0][1] == "rect":
                     return f"(g_area_overlap {recv} {args[0][0]})", "num"
                 if f.attr in ("split_vertical", "split_horizontal") and not args:
-                    return f"(g_{f.attr} {recv} {num(-1)})", "optrectpair"     # default argument -1
+                    return f"(g_{f.attr} {recv} {num(-1)})", "opt:rectpair"     # default argument -1
             raise TranslationError(f"method call .{f.attr}")
         raise TranslationError("call")
+
+    def inline(self, node, args) -> tuple[str, str]:
+        """translate the helper `node` on demand and inline it: args are (gallina, type) pairs"""
+        if node.name in self.stack or node.name == self.name:
+            raise TranslationError(f"recursive helper {node.name}")
+        if node.args.vararg or node.args.kwarg or node.args.kwonlyargs or node.args.posonlyargs:
+            raise TranslationError(f"helper {node.name}: unsupported parameter kinds")
+        params = list(node.args.args)
+        deco = decorators(node)
+        if deco - {"staticmethod", "classmethod", "property"}:
+            raise TranslationError(f"helper {node.name}: decorator")
+        if "classmethod" in deco:
+            params = params[1:]
+        defaults = list(node.args.defaults)
+        if len(args) > len(params) or len(args) < len(params) - len(defaults):
+            raise TranslationError(f"helper {node.name}: number of arguments")
+        sub = Fn(node, self.cls_defs, self.stack + (self.name,))
+        args = list(args)
+        for d in defaults[len(defaults) - (len(params) - len(args)):] if len(args) < len(params) else []:
+            args.append(sub.expr(d))           # constant defaults only (anything else fails: empty environment)
+        opens = []
+        temps = []
+        for p, (g, t) in zip(params, args):
+            want = annot_type(p.annotation)
+            if want is None:
+                if p.arg == "self":
+                    want = "rect"
+                elif p.arg in PARAM_TYPES:
+                    want = PARAM_TYPES[p.arg]
+                else:
+                    raise TranslationError(f"helper {node.name}: parameter {p.arg} has no annotation")
+            if want != t:
+                raise TranslationError(f"helper {node.name}: parameter {p.arg} is {want}, argument is {t}")
+            tmp = fresh()
+            temps.append((p.arg, tmp, t))
+            opens.append(f"(let {tmp} := {g} in ")
+        for name, tmp, t in temps:
+            sub.env[name] = t
+            opens.append(f"(let v_{name} := {tmp} in ")
+        body = sub.block(list(node.body))
+        base = {t for t in sub.ret_types if t != "none" and not t.startswith("opt:")} | \
+               {t[4:] for t in sub.ret_types if t.startswith("opt:")}
+        if len(base) != 1:
+            raise TranslationError(f"helper {node.name}: result types {sorted(sub.ret_types)}")
+        rt = base.pop()
+        return "".join(opens) + body + ")" * len(opens), ("opt:" + rt if sub.optional else rt)
 
     # ---------- statements (continuation = remaining statements) ----------
     def ret(self, g: str) -> str:
@@ -260,9 +432,11 @@ class Fn:
             if s.value is None or (isinstance(s.value, ast.Constant) and s.value.value is None):
                 if not self.optional:
                     raise TranslationError("return None")
+                self.ret_types.add("none")
                 return "None"
             g, t = self.expr(s.value)
-            if t == "optrectpair":
+            self.ret_types.add(t)
+            if t.startswith("opt:"):
                 if not self.optional:
                     raise TranslationError("optional result in a total function")
                 return g
@@ -272,6 +446,18 @@ class Fn:
             if t != "bool":
                 raise TranslationError("assert on non-boolean")
             return f"(if {c} then {self.block(rest)} else None)"
+        if isinstance(s, ast.If) and self.none_test(s.test) is not None:
+            name, is_none = self.none_test(s.test)
+            base = self.env[name][4:]
+            saved = dict(self.env)
+            self.env[name] = "none" if is_none else base
+            a = self.block(list(s.body) + rest)
+            self.env = dict(saved)
+            self.env[name] = base if is_none else "none"
+            b = self.block(list(s.orelse) + rest)
+            self.env = saved
+            n_br, s_br = (a, b) if is_none else (b, a)
+            return f"(match v_{name} with None => {n_br} | Some v_{name} => {s_br} end)"
         if isinstance(s, ast.If):
             c, t = self.expr(s.test)
             if t != "bool":
@@ -350,7 +536,7 @@ def translate_file(path: Path) -> str:
     for m in METHODS:
         if m not in defs:
             raise TranslationError(f"method {m} not found")
-        out.append(Fn(defs[m]).translate())
+        out.append(Fn(defs[m], defs).translate())
     out.append("End Generated.\n")
     return "\n".join(out)
 
